@@ -1,6 +1,8 @@
 import ZV.Proofs.C21
 import ZV.Proofs.C21Build
 import ZV.Proofs.C21Leaf
+import ZV.Proofs.C21Seq
+import ZV.Proofs.C21Unwrite
 import ZV.Props.C19
 import ZV.Proofs.TimeCB
 /-!
@@ -15,7 +17,7 @@ import ZV.Proofs.TimeCB
     `flushChild` is reachable from a program.
   * `read_write_fragment` (kept): the tail-independent fragment {AddUint8/16/24/32, AddBytes,
     AddUintNLengthPrefixed, AddASN1, AddASN1OctetString, AddASN1Boolean, AddASN1NULL}.
-  * `read_write_all`: for every program over ALL 22 ops of the model that satisfies the decidable predicate
+  * `read_write_all`: for every program over ALL 25 ops of the model that satisfies the decidable predicate
     `readable p tail`, the mirrored read program returns exactly the written values and leaves exactly the
     tail.  `readable` says: fixed-width values fit their width; int64 / uint64 values fit their Go type;
     every ASN.1 body is shorter than 2^32-6 bytes (the limit of `readASN1`'s uint32 guard); every OID
@@ -238,7 +240,7 @@ example : Frag (.lp 2 (.asn1 0x30 (.uN 1 7 (.bool true .done)) (.null .done)) (.
 
 /-- `var b Builder; <program>; b.Bytes()` in the low-level model — shared result buffer, `offset`,
     `pendingLenLen`, `pendingIsASN1`, length back-patching in `flushChild`, DER long-form widening by an
-    overlapping `copy` — equals the specification serializer, for every program (all 22 ops, any nesting,
+    overlapping `copy` — equals the specification serializer, for every program (all 25 ops, any nesting,
     any prefix width, including every error case). -/
 theorem builder_refines_ser (p : Prog) : buildBytes p = ser p := buildBytes_eq_ser p
 
@@ -291,6 +293,9 @@ def readable : Prog → Bytes → Bool
   | .optBool _ _ k, t => readable k t
   | .noBool _ k, t => nextIsNot 1 (ser k) t && readable k t
   | .gtime tm k, t => ZV.Time.gtimeOK tm && readable k t
+  | .alt a k, t => altReadable a (ser k) t && readable k t
+  | .setErr k, t => readable k t
+  | .value body _ k, t => (match ser k with | .ok y => readable body (y ++ t) | _ => true) && readable k t
 
 /-- **write → read, all ops.**  Whatever a `readable` program writes, the mirrored read program reads
     back: exactly the written values, exactly the tail left unread. -/
@@ -456,8 +461,35 @@ theorem read_write_all (p : Prog) :
     subst e
     simp only [readProg, values, List.append_assoc,
       ZV.Time.readGeneralizedTime_back tm x (y ++ tail) hx hr.1, ih tail y hr.2 hy, cons]
+  | alt a k ih =>
+    intro tail bs hr h
+    simp only [readable, Bool.and_eq_true] at hr
+    obtain ⟨x, y, hx, hy, e⟩ := append_ok h
+    subst e
+    simp only [readProg, values, List.append_assoc, altRead_back a (ser k) x y tail hx hy hr.1,
+      ih tail y hr.2 hy, cons]
+  | setErr k ih =>
+    intro tail bs _ h
+    obtain ⟨x, y, hx, _, _⟩ := append_ok h
+    simp at hx
+  | value body fail k ihb ihk =>
+    intro tail bs hr h
+    simp only [readable, Bool.and_eq_true] at hr
+    obtain ⟨x, y, hx, hy, e⟩ := append_ok h
+    subst e
+    obtain ⟨x1, x2, hx1, hx2, e⟩ := append_ok hx
+    subst e
+    cases fail with
+    | true => simp at hx2
+    | false =>
+      simp only [Bool.false_eq_true, if_false, Res.ok.injEq] at hx2
+      subst hx2
+      have hrb : readable body (y ++ tail) = true := by simpa only [hy] using hr.1
+      have hb := ihb (y ++ tail) x1 hrb hx1
+      simp only [readProg, values, List.append_nil, List.append_assoc]
+      exact inline_ok hb (ihk tail y hr.2 hy)
 
-/-- a program over 17 of the 22 ops (all integer kinds at their type limits, the largest readable OID
+/-- a program over 17 of the 25 ops (all integer kinds at their type limits, the largest readable OID
     sub-identifier, BIT STRING, present and absent optional fields, nesting) that satisfies `readable`
     and is serialized successfully. -/
 def exampleProg : Prog :=
@@ -528,6 +560,133 @@ theorem frag_readable (p : Prog) (hf : Frag p) : ∀ tail, readable p tail = tru
   | bool v k ih => intro t; simp [readable, ih hf t]
   | null k ih => intro t; simp [readable, ih hf t]
   | _ => exact hf.elim
+
+/-! ## error latching, AddValue, and the length-prefix overflow paths — for ALL programs -/
+
+/-- **error latching (1).**  Once the Builder carries an error (`SetError`, an invalid OID, a year outside
+    0..9999, a high-tag-number tag, a child that overflowed its length prefix, `Marshal` returned an error …),
+    EVERY later call — any program `q` over all 25 ops, at any nesting — is a no-op: no field of the Builder
+    changes (result buffer included). -/
+theorem error_latched_noop (q : Prog) (b : Builder) (h : b.err = true) : build q b = b :=
+  (impl_build q).errd b h
+
+/-- **error latching (2).**  … and `Bytes()` returns the error: if the calls `p` end in an error, so do the
+    calls `p` followed by any `q`. -/
+theorem bytes_after_error (p q : Prog) (h : buildBytes p = .err) : buildBytes (p.seq q) = .err := by
+  rw [builder_refines_ser] at h ⊢
+  rw [ser_seq, h]
+  exact append_err_left _ (impl_build q).np
+
+/-- `SetError` (non-nil) after any calls `p`, followed by any calls `q`: `Bytes()` returns the error, and no
+    byte of `q` is written. -/
+theorem setError_latches (p q : Prog) :
+    buildBytes (p.seq (.setErr q)) = .err ∧ build (p.seq (.setErr q)) {} = setError (build p {}) ∨
+    buildBytes p = .err := by
+  cases hp : buildBytes p with
+  | panic => exact absurd hp (builder_never_panics p)
+  | err => exact Or.inr rfl
+  | ok c =>
+    refine Or.inl ⟨?_, ?_⟩
+    · rw [builder_refines_ser] at hp ⊢
+      rw [ser_seq, hp]
+      simp only [ser]
+      rw [append_err_left _ (impl_build q).np]
+      rfl
+    · rw [build_seq]
+      simp only [build]
+      exact error_latched_noop q _ (by simp [setError])
+
+example : buildBytes (Prog.seq (.uN 1 7 .done) (.setErr (.uN 1 8 .done))) = .err ∧
+    buildBytes (.uN 1 7 .done) = .ok [7] := by decide
+
+/-- an error raised inside a continuation (any depth) reaches the parent when the child is flushed: the
+    block is not written and the parent's `Bytes()` returns the error, whatever follows. -/
+theorem child_error_propagates (n : Nat) (tag : UInt8) (body k : Prog) (h : buildBytes body = .err) :
+    buildBytes (.lp n body k) = .err ∧ buildBytes (.asn1 tag body k) = .err := by
+  rw [builder_refines_ser] at h
+  simp only [builder_refines_ser, ser, h, lpBytes, elementR, append_err_left _ (impl_build k).np, and_self]
+
+example : buildBytes (.oid [3, 1] .done) = .err := by decide
+
+/-- `AddValue(v)`: the Builder behaves as if `v.Marshal`'s calls had been made on it directly; a non-nil
+    error returned by `Marshal` is latched (even though `Marshal`'s bytes were already appended, `Bytes()`
+    returns the error). -/
+theorem addValue_spec (body k : Prog) (fail : Bool) :
+    buildBytes (.value body fail k) = if fail then .err else buildBytes (body.seq k) := by
+  simp only [builder_refines_ser, ser, ser_seq]
+  have hb := (impl_build body).np
+  have hk := (impl_build k).np
+  cases fail with
+  | true =>
+    simp only [if_true, append_err_right _ hb, append_err_left _ hk]
+  | false =>
+    simp only [Bool.false_eq_true, if_false]
+    cases ser body <;> cases ser k <;> simp_all [Res.append]
+
+/-- **length-prefix overflow, exact.**  `AddUintNLengthPrefixed` writes the block iff the child's bytes fit
+    the `n`-byte prefix; then the block is the big-endian length followed by the child's bytes — otherwise
+    `Bytes()` returns an error (never a panic, never a truncated length). -/
+theorem lp_written_iff (n : Nat) (body : Prog) (c : Bytes) (hc : buildBytes body = .ok c) :
+    (c.length < 256 ^ n → buildBytes (.lp n body .done) = .ok (beBytes n c.length ++ c)) ∧
+    (256 ^ n ≤ c.length → buildBytes (.lp n body .done) = .err) := by
+  rw [builder_refines_ser] at hc
+  constructor
+  · intro h
+    have : ¬ c.length ≥ 256 ^ n := by omega
+    simp [builder_refines_ser, ser, hc, lpBytes, this, Res.append]
+  · intro h
+    have : c.length ≥ 256 ^ n := h
+    simp [builder_refines_ser, ser, hc, lpBytes, this, Res.append]
+
+example : buildBytes (.raw [1, 2, 3] .done) = .ok [1, 2, 3] ∧ [1, 2, 3].length < 256 ^ 1 := by decide
+
+/-- **ASN.1 overflow, as coded.**  A child of more than 0xfffffffe bytes ("pending ASN.1 child too long") and a
+    tag in high-tag-number form are errors of `AddASN1`; every other child is written with the minimal DER
+    length — in all three cases without a panic. -/
+theorem asn1_overflow_is_error (tag : UInt8) (body k : Prog) (c : Bytes) (hc : buildBytes body = .ok c)
+    (h : c.length > 0xfffffffe ∨ tag.toNat % 32 = 31) : buildBytes (.asn1 tag body k) = .err := by
+  rw [builder_refines_ser] at hc
+  have hk := (impl_build k).np
+  have he : CB.element tag c = .err := by
+    unfold CB.element CB.derLength
+    rcases h with h | h
+    · by_cases ht : tag.toNat % 32 = 31
+      · simp [ht]
+      · simp [ht, h]
+    · simp [h]
+  simp only [builder_refines_ser, ser, hc, elementR, he, append_err_left _ hk]
+
+example : buildBytes (.asn1 0x1f (.uN 1 1 .done) .done) = .err ∧ (0x1f : UInt8).toNat % 32 = 31 := by decide
+
+/-! ## Unwrite -/
+
+/-- **Unwrite, SetError and blocks: the low-level Builder refines the block specification**, for every
+    builder-only program (any nesting): `Unwrite(n)` removes the last `n` bytes written into the CURRENT block
+    (flushed children included) and panics exactly when the block holds fewer than `n` bytes; a panic or an error
+    inside a continuation reaches `Bytes()` of the outermost Builder; after an error `Unwrite` is a no-op. -/
+theorem unwrite_refines_spec (p : BProg) : bbuildBytes p = bspec p [] := bbuildBytes_eq_bspec p
+
+/-- `Unwrite(len b)` undoes `AddBytes(b)`, in any block, whatever was written before and whatever follows. -/
+theorem unwrite_undoes_add (bs acc : Bytes) (k : BProg) :
+    bspec (.add bs (.unwrite bs.length k)) acc = bspec k acc := by
+  simp [bspec]
+
+/-- "An attempt by a child builder passed to a continuation to unwrite bytes from its parent will panic":
+    a child can unwrite neither its reserved length prefix nor the parent's bytes — `Unwrite(m)` with more
+    than the block's own `c` bytes panics, whatever the parent (`pre`) wrote, for every prefix width and for
+    ASN.1 children. -/
+theorem child_cannot_unwrite_parent (pre c : Bytes) (n m : Nat) (tag : UInt8) (k k' : BProg)
+    (hm : m > c.length) (htag : tag.toNat % 32 ≠ 31) :
+    bbuildBytes (.add pre (.lp n (.add c (.unwrite m k')) k)) = .panic ∧
+    bbuildBytes (.add pre (.asn1 tag (.add c (.unwrite m k')) k)) = .panic := by
+  simp [unwrite_refines_spec, bspec, hm, htag]
+
+example : bbuildBytes (.add [1, 2] (.lp 1 (.add [3] (.unwrite 2 .done)) .done)) = .panic ∧
+    bbuildBytes (.add [1, 2] (.lp 1 (.add [3] (.unwrite 1 .done)) .done)) = .ok [1, 2, 0] := by decide
+
+/-- after an error `Unwrite` does nothing — not even panic. -/
+theorem unwrite_after_error (n : Nat) (k : BProg) (acc : Bytes) :
+    bspec (.setErr (.unwrite n k)) acc = .err := rfl
 
 /-! ## GeneralizedTime -/
 open ZV.Time in
